@@ -178,15 +178,17 @@ Proof.
                 (match m with Mrp | Mwp | Map => true | _ => false end) bufsz (zlen c')
                 (mksrv c' (if m_append m then zlen c' else 0) None (m_append m)))
       (mkrf c' (if m_append m then zlen c' else 0) (m_read m) (m_write m) (m_append m))).
-  { intros c'. constructor; cbn; try reflexivity.
-    - destruct (m_append m); [apply zlen_nonneg|lia].
-    - lia.
-    - unfold Lf, L, RemOf, sRem. cbn. reflexivity.
-    - destruct m; try discriminate Hm; reflexivity.
-    - exact Hm.
-    - apply (generic_bufsize _ _ _ _ bufsz (zlen c')
-               (mksrv c' (if m_append m then zlen c' else 0) None (m_append m))).
-    - exact I. }
+  { intros c'. apply mk_tied;
+      [ reflexivity | reflexivity | reflexivity
+      | cbn; destruct (m_append m); [apply zlen_nonneg|lia]
+      | cbn; lia
+      | unfold Lf, L, RemOf, sRem; cbn; reflexivity
+      | reflexivity | reflexivity
+      | cbn; destruct m; try discriminate Hm; reflexivity
+      | exact Hm
+      | apply (generic_bufsize _ _ _ _ bufsz (zlen c')
+                 (mksrv c' (if m_append m then zlen c' else 0) None (m_append m)))
+      | exact I ]. }
   destruct file as [c0|].
   - destruct (m_excl m); [discriminate|]. injection Hs as <-. injection Hr as <-. cbn [r_content]. apply Hgen.
   - destruct (m_must_exist m); [discriminate|]. injection Hs as <-. injection Hr as <-. cbn [r_content]. apply Hgen.
